@@ -75,6 +75,10 @@ type Eval struct {
 	Side *[]*smt.Term
 	// Facts receives type invariants of values the specification reads from the heap.
 	Facts func(*smt.Term)
+	// Owned folds a handle of an owned structure into its tree value.
+	Owned func(*ownedRef) *smt.Term
+	unfold int // current unfolding depth of recursive specification functions
+	ufSeen map[*smt.Term]int
 }
 
 func (e *Eval) fail(f string, a ...any) {
@@ -153,9 +157,17 @@ func (e *Eval) FromVal(v Val, t types.Type) SV {
 		return SV{T: t, Loc: x}
 	case *smt.Term:
 		if pt, ok := t.Underlying().(*types.Pointer); ok {
+			if e.P.T.OwnedOf(t) != nil {
+				return SV{T: t, Term: x}
+			}
 			return SV{T: t, Loc: &Loc{Kind: LRoot, Ref: x, Root: pt.Elem()}, Term: x}
 		}
 		return SV{T: t, Term: x}
+	case *ownedRef:
+		if e.Owned == nil {
+			e.fail("owned pointer used where no execution state is available")
+		}
+		return SV{T: t, Term: e.Owned(x)}
 	}
 	e.fail("cannot use value %T in a specification", v)
 	return SV{}
@@ -475,6 +487,9 @@ func (e *Eval) nilOf(t types.Type) SV {
 	switch t.Underlying().(type) {
 	case *types.Pointer:
 		pt := t.Underlying().(*types.Pointer)
+		if oi := e.P.T.OwnedOf(t); oi != nil {
+			return SV{T: t, Term: oi.NilTerm()}
+		}
 		return SV{T: t, Term: smt.IntLit(0), Loc: &Loc{Kind: LRoot, Ref: smt.IntLit(0), Root: pt.Elem()}}
 	case *types.Slice:
 		return SV{T: t, Term: NilSlice}
@@ -664,6 +679,17 @@ func (e *Eval) equal(a, b SV) *smt.Term {
 
 func (e *Eval) ptrEq(a, b SV) *smt.Term {
 	la, lb := a.Loc, b.Loc
+	if oi := e.P.T.OwnedOf(a.T); oi != nil {
+		// owned pointers are tree values; comparison with nil is a constructor test
+		ta, tb := e.term(a), e.term(b)
+		if tb.Op == "ctor" && tb.Name == oi.Nil.Name {
+			return oi.IsNil(ta)
+		}
+		if ta.Op == "ctor" && ta.Name == oi.Nil.Name {
+			return oi.IsNil(tb)
+		}
+		return smt.Eq(ta, tb)
+	}
 	if la == nil || lb == nil {
 		return smt.Eq(e.term(a), e.term(b))
 	}
@@ -784,6 +810,10 @@ func (e *Eval) selector(x *spec.Selector) SV {
 		if fi < 0 {
 			e.fail("no field %s in %s", x.Name, pt.Elem())
 		}
+		if oi := e.P.T.OwnedOf(t); oi != nil {
+			// field of the root node of a tree value (unspecified on nil, like any partial function)
+			return e.FromVal(oi.Field(fi, e.term(v)), ft)
+		}
 		if v.Loc == nil {
 			e.fail("pointer without location")
 		}
@@ -847,6 +877,16 @@ func (e *Eval) call(x *spec.Call) SV {
 			o.Scope = e.Scope.rebase(e.OldScope)
 		}
 		return o.Eval(x.Args[0])
+	case "now": // now(p): the structure below the owned parameter p after the call (p is modified in place)
+		id, ok := x.Args[0].(*spec.Ident)
+		if !ok {
+			e.fail("now() takes a parameter name")
+		}
+		v, ok := e.Scope.lookup("now$" + id.Name)
+		if !ok {
+			e.fail("now(%s): %s is not an owned parameter modified in place (assigns %s), or no post-state is available here", id.Name, id.Name, id.Name)
+		}
+		return v
 	case "len", "cap":
 		v := e.Eval(x.Args[0])
 		switch v.T.Underlying().(type) {
@@ -984,6 +1024,10 @@ func (e *Eval) applySpecFunc(sf *specFn, args []spec.Expr) SV {
 		sc.vars[p.Name] = v
 	}
 	defEval.Scope = sc
+	defEval.unfold, defEval.ufSeen, defEval.Owned = e.unfold, e.ufSeen, e.Owned
+	if sf.F.Uninterpreted || sf.isRecursive() {
+		return e.applyUF(sf, defEval, sc)
+	}
 	r := defEval.Eval(sf.F.Body)
 	if sf.F.Pred {
 		if r.T == nil || !isBool(r.T) {
